@@ -124,6 +124,14 @@ def handleSil (w : Nat) (toks : List String) : Option String := do
   else
     some s!"ok {tl64 (silhouettePts x l)}"
 
+/-- stale label counts: the `CountedTargets` were counted on `cl`, the targets are `l` -/
+def handleSilStale (toks : List String) : Option String := do
+  let x ← argF64s2 toks "x"; let l ← argNats toks "l"; let cl ← argNats toks "cl"
+  if x.length ≠ l.length then none
+  match silhouetteC (labelCache cl) (distMatrix x) l with
+  | none => some "panic"
+  | some v => some s!"ok {tl64 v}"
+
 def handlePearson (w : Nat) (toks : List String) : Option String := do
   let x ← argF64s2 toks "x"; let p ← argNat toks "p"
   if w = 32 then
@@ -151,6 +159,7 @@ def handle (toks : List String) : String :=
     | "sil" :: rest => handleSil 64 rest
     | "sil32" :: rest => handleSil 32 rest
     | "silf" :: rest => withForm rest (handleSil 64)
+    | "sils" :: rest => handleSilStale rest
     | "pearson" :: rest => handlePearson 64 rest
     | "pearson32" :: rest => handlePearson 32 rest
     | "pearsonf" :: rest => withForm rest (handlePearson 64)
